@@ -230,6 +230,47 @@ pub fn apply(bytes: &[u8], sp: &[Span], mu: &Mutation, chunk: usize) -> Option<V
         b[s_r.off] = rem as u8;
         return Some(b);
     }
+    if let Some(d) = mu.m.strip_prefix("reextend:") {
+        // s is opt.extension. The proof claims another field extension and every component made of extension-field elements is
+        // re-sized to the element size of that extension (contents cut or zero-padded element by element, every length prefix
+        // consistent): the claimed extension reaches the verifier's own dispatch instead of failing at a length check
+        let new_ext: usize = d.parse().ok()?;
+        let old_ext = bytes[s.off] as usize;
+        if old_ext == 0 || old_ext > 3 || new_ext == old_ext || chunk % old_ext != 0 {
+            return None;
+        }
+        let base = chunk / old_ext;
+        let (old_sz, new_sz) = (chunk, base * new_ext);
+        let mut b = bytes.to_vec();
+        for x in sp.iter().rev() {
+            let ext_valued = x.name == "cq.values" || x.name == "tq2.values" || x.name.starts_with("ood.") || x.name == "fri.remainder"
+                || (x.name.starts_with("fl") && x.name.ends_with(".values"));
+            if !ext_valued || x.kind == "scalar" {
+                continue;
+            }
+            let start = x.off + x.width;
+            let content = &bytes[start..start + x.len];
+            // out-of-domain frames start with a count byte
+            let head = if x.name == "ood.trace" || x.name == "ood.lagrange" { 1.min(content.len()) } else { 0 };
+            if (content.len() - head) % old_sz != 0 {
+                return None;
+            }
+            let mut nc: Vec<u8> = content[..head].to_vec();
+            for el in content[head..].chunks(old_sz) {
+                for k in 0..new_sz {
+                    nc.push(if k < old_sz { el[k] } else { 0 });
+                }
+            }
+            if x.width < 8 && (nc.len() as u64) >= (1u64 << (8 * x.width)) {
+                return None;
+            }
+            let mut pre = vec![0u8; x.width];
+            wr(&mut pre, 0, x.width, nc.len() as u64);
+            b.splice(x.off..start + x.len, pre.into_iter().chain(nc));
+        }
+        b[s.off] = new_ext as u8;
+        return Some(b);
+    }
     if mu.m.starts_with("add-layer-copies:") || mu.m == "remove-last-layer" {
         // s is fri.num_layers; the layer groups fl<k>.values / fl<k>.paths follow it
         let n = rd(bytes, s.off, 1)? as usize;
